@@ -61,6 +61,8 @@ struct Node {
     hl: HashMap<u32, iggy::clients::client::IggyClient>,
     producers: HashMap<u32, iggy::clients::producer::IggyProducer>,
     consumers: HashMap<u32, iggy::clients::consumer::IggyConsumer>,
+    /// per consumer: stream, topic, partition (None: group), last offset yielded per partition
+    cons_meta: HashMap<u32, (String, String, Option<u32>, HashMap<u32, u64>)>,
     tokens: Vec<String>,
     raws: HashMap<u32, tokio::net::TcpStream>,
     maintain_cmd: Option<MaintainMessagesCommand>,
@@ -365,6 +367,7 @@ pub async fn run() {
         hl: HashMap::new(),
         producers: HashMap::new(),
         consumers: HashMap::new(),
+        cons_meta: HashMap::new(),
         // raw tokens survive the incarnation in a side file OUTSIDE the data directory
         tokens: std::fs::read_to_string(format!("{dir}.tokens"))
             .map(|t| t.lines().map(|l| l.to_string()).collect())
@@ -492,11 +495,29 @@ impl Node {
         self.conns.get(&s.parse::<u32>().unwrap())
     }
 
+    /// number of clients the server knows
+    async fn clients_count(&self) -> usize {
+        let sys = self.system.read().await;
+        let root = server::streaming::session::Session::stateless(1, "127.0.0.1:1".parse().unwrap());
+        sys.get_clients(&root).await.map(|c| c.len()).unwrap_or(0)
+    }
+
+    /// after a disconnect: wait until the server has noticed it (its connection task has run delete_client)
+    async fn wait_clients_below(&self, before: usize) {
+        for _ in 0..1500 {
+            if self.clients_count().await < before {
+                break;
+            }
+            tokio::time::sleep(std::time::Duration::from_millis(2)).await;
+        }
+        tokio::time::sleep(std::time::Duration::from_millis(4)).await;
+    }
+
     async fn settle(&self) {
         let mut last = u64::MAX;
         let mut stable = 0;
-        while stable < 3 {
-            tokio::time::sleep(std::time::Duration::from_millis(8)).await;
+        while stable < 5 {
+            tokio::time::sleep(std::time::Duration::from_millis(15)).await;
             let s = dir_size(&self.dir);
             if s == last {
                 stable += 1;
@@ -707,11 +728,18 @@ impl Node {
             "close" => {
                 let id: u32 = f[1].parse().unwrap();
                 if let Some(c) = self.conns.remove(&id) {
+                    let before = self.clients_count().await;
+                    // an HTTP connection is not a server-side client (get_me is not available there)
+                    let is_tcp = !matches!(c.get_me().await, Err(iggy::error::IggyError::FeatureUnavailable));
                     let _ = c.disconnect().await;
                     drop(c);
                     // let the server notice the disconnect
-                    for _ in 0..50 {
-                        tokio::time::sleep(std::time::Duration::from_millis(2)).await;
+                    if is_tcp {
+                        self.wait_clients_below(before).await;
+                    } else {
+                        for _ in 0..50 {
+                            tokio::time::sleep(std::time::Duration::from_millis(2)).await;
+                        }
                     }
                 }
                 "ok".into()
@@ -914,7 +942,12 @@ impl Node {
                 }
                 let mut consumer = b.build();
                 r!(consumer.init().await);
-                self.consumers.insert(f[1].parse().unwrap(), consumer);
+                let cid: u32 = f[1].parse().unwrap();
+                self.consumers.insert(cid, consumer);
+                self.cons_meta.insert(
+                    cid,
+                    (f[4].to_string(), f[5].to_string(), f[6].parse().ok(), HashMap::new()),
+                );
                 "ok".into()
             }
             "cnext" => {
@@ -923,12 +956,49 @@ impl Node {
                 let Some(c) = self.consumers.get_mut(&f[1].parse::<u32>().unwrap()) else {
                     return "err no-such-consumer".into();
                 };
+                let cid: u32 = f[1].parse().unwrap();
                 let k: usize = f[2].parse().unwrap();
                 let t = std::time::Duration::from_millis(f[3].parse().unwrap());
                 let mut out = vec![];
                 let mut end = "";
+                let meta = self.cons_meta.get(&cid).cloned();
+                let mut lasts: HashMap<u32, u64> = meta.as_ref().map(|m| m.3.clone()).unwrap_or_default();
                 for _ in 0..k {
-                    match tokio::time::timeout(t, c.next()).await {
+                    let mut res = tokio::time::timeout(t, c.next()).await;
+                    if res.is_err() {
+                        // nothing within the time allowed: if the partition(s) hold messages beyond what this
+                        // consumer has yielded it may just be slow (a loaded machine) - give it more time before
+                        // calling it a stall
+                        let mut left = false;
+                        if let Some((st, tp, pid, _)) = &meta {
+                            let sys = self.system.read().await;
+                            if let Ok(stream) = sys.get_stream(&ident(st)) {
+                                if let Ok(topic) = stream.get_topic(&ident(tp)) {
+                                    for p in topic.get_partitions() {
+                                        let p = p.read().await;
+                                        if pid.map_or(true, |x| x == p.partition_id)
+                                            && p.should_increment_offset
+                                            && lasts.get(&p.partition_id).map_or(true, |l| p.current_offset > *l)
+                                        {
+                                            left = true;
+                                        }
+                                    }
+                                }
+                            }
+                        }
+                        if left {
+                            for _ in 0..5 {
+                                res = tokio::time::timeout(t, c.next()).await;
+                                if res.is_ok() {
+                                    break;
+                                }
+                            }
+                        }
+                    }
+                    if let Ok(Some(Ok(m))) = &res {
+                        lasts.insert(m.partition_id, m.message.offset);
+                    }
+                    match res {
                         Err(_) => {
                             end = "stall";
                             break;
@@ -947,6 +1017,9 @@ impl Node {
                             break;
                         }
                     }
+                }
+                if let Some(m) = self.cons_meta.get_mut(&cid) {
+                    m.3 = lasts;
                 }
                 format!("ok {} {}", if out.is_empty() { "-".into() } else { out.join(",") }, end)
                     .trim_end()
@@ -969,9 +1042,10 @@ impl Node {
             "hl-close" => {
                 // hl-close <h> : the connection goes away (group membership ends on the server)
                 if let Some(c) = self.hl.remove(&f[1].parse::<u32>().unwrap()) {
+                    let before = self.clients_count().await;
                     let _ = c.disconnect().await;
                     drop(c);
-                    tokio::time::sleep(std::time::Duration::from_millis(60)).await;
+                    self.wait_clients_below(before).await;
                 }
                 "ok".into()
             }
